@@ -261,7 +261,7 @@ func runC06(c *Ctx) {
 			tbC06(c, env, n)
 		}
 	}()
-	r.Rule = "programs as for C02; reference run gives the job list; then fault enumeration: for each (job, manifestation) — quick: a PRNG sample, thorough: all — with manifestation in {_errors, _assert, silent non-zero exit (job manager writes _errors), job lost without a trace in cluster mode (a job manager with a queue query; the lost job alone in flight or not), truncated _outs, _outs = null, missing output key, wrong JSON type, bad _stage_defs (split jobs)}: the pipestance must end failed (never complete), the reported error must name the failing stage, no job of a call that depends on the failed call (source-level dependency oracle) may be submitted after the failure, and after restart without the fault it must complete with the reference outputs re-executing only unfinished work; every history is replayed in the Lean Sched model; non-trivial = the failing job has >=1 dependent call or >=1 independent sibling; distinct = (program, job, kind)"
+	r.Rule = "programs as for C02; reference run gives the job list; then fault enumeration: for each (job, manifestation) — quick: a PRNG sample, thorough: all — with manifestation in {_errors, _assert, silent non-zero exit (job manager writes _errors), job lost without a trace in cluster mode (a job manager with a queue query; the lost job alone in flight or not), job that sent a heartbeat and then died without a trace in local mode (heartbeat timeout in simulated time), truncated _outs, _outs = null, missing output key, wrong JSON type, bad _stage_defs (split jobs)}: the pipestance must end failed (never complete), the reported error must name the failing stage, no job of a call that depends on the failed call (source-level dependency oracle) may be submitted after the failure, and after restart without the fault it must complete with the reference outputs re-executing only unfinished work; every history is replayed in the Lean Sched model; non-trivial = the failing job has >=1 dependent call or >=1 independent sibling; distinct = (program, job, kind)"
 	n := 40
 	perProg := 6
 	if c.Thorough {
@@ -373,7 +373,7 @@ func runC06(c *Ctx) {
 		// cluster-mode stream: a job that vanishes without leaving any file (killed in the scheduler's queue,
 		// node lost); only the queue query (Pipestance.queryQueue -> failNotRunning -> endRefresh) can fail it.
 		// The lost job is alone in flight or not, as the program and the schedule have it.
-		nlost := 2
+		nlost := 1
 		if perProg == 0 {
 			nlost = len(jobs)
 		}
@@ -384,10 +384,15 @@ func runC06(c *Ctx) {
 			nlost--
 			all = append(all, jk{jobs[ji], "lost"})
 		}
+		// local mode: a job that started, sent a heartbeat and then died without a trace is only noticed by
+		// the heartbeat timeout (60 minutes, simulated: TASpec.AgeHeartbeats)
+		if len(jobs) > 0 {
+			all = append(all, jk{jobs[c.Rng.Intn(len(jobs))], "hang"})
+		}
 		for _, x := range all {
 			s := &TASpec{Name: fmt.Sprintf("%s#fault:%s:%s", p.Name, x.j, x.k), Src: p.Src, MroPaths: p.MroPaths, Seed: c.Seed, StepBias: 0.4,
 				StartSeparate: 0.3, Faults: []*Fault{{JobKey: x.j, Kind: x.k}}, RestartAfterFail: true,
-				WantEvents: true, WantTrace: true, TimeoutS: 40, Cluster: x.k == "lost"}
+				WantEvents: true, WantTrace: true, TimeoutS: 40, Cluster: x.k == "lost", AgeHeartbeats: x.k == "hang"}
 			cases = append(cases, faultCase{p, ref, x.j, x.k, s})
 			specs = append(specs, s)
 		}
